@@ -10,10 +10,12 @@ import sys
 HERE = os.path.dirname(os.path.dirname(os.path.abspath(__file__)))
 
 HOOK_COMMITS = ["296d2e2"]
+FIX_COMMITS = ["c3309bb", "818282c", "d254f8d", "e48a860", "14c9b1b", "2de9305", "b1e1837", "3e873b6", "69019bf", "6843529", "0e8f22c",
+               "379cf04", "336672a", "b83760a"]
 
 CLAIMS = {
     "C01": dict(
-        technique="property-based testing (Hypothesis) against an exact brute-force / independent forward-Viterbi oracle, JIT and interpreted kernels",
+        technique="property-based testing (Hypothesis) against an exact brute-force / independent forward-Viterbi oracle, JIT and interpreted kernels, float64/float32/int tables; plus a coverage-guided Atheris campaign on the interpreted kernel with the brute-force oracle inside the target",
         text=("Generated cost tables and switching costs (exact dyadic class with zero tolerance, generic floats with an a-priori "
               "rounding bound, ties, T=1, K=1, K up to 300, T up to 400) are fed to the labelling kernel in separate JIT and "
               "interpreted processes; the exact cost of the returned sequence is compared with the exact optimum (exhaustive "
@@ -59,7 +61,7 @@ CLAIMS = {
         note="Trusted: association of values to clusters via reference densities under the hook's final model; rel. tolerance 1e-9 of sum|terms|.",
         ref="DESIGN.md section 3, C06"),
     "C08": dict(
-        technique="complete enumeration of small size vectors + Hypothesis (random sizes, ties, seeds) + Hypothesis stateful machine over relabel/repopulate histories, against an independent capacity model",
+        technique="complete enumeration of small size vectors + Hypothesis (random sizes, ties, seeds) + Hypothesis stateful machine over relabel/repopulate histories + coverage-guided Atheris campaign, all against an independent capacity model",
         text=("Repopulation is executed on every size vector of the enumerated finite domain (K<=3 quick / K<=4 thorough, m in 1..3, "
               "sizes 0..3m+2, all spread orders; K=5,m=1 in thorough), on random larger cases with tied spreads, and inside stateful "
               "histories; outcome (error iff capacity shortage, conservation, +m per needy cluster, donor limits, donor order, "
@@ -219,11 +221,15 @@ def main():
             {"name": "hypothesis-harness", "path": "harness/main.py",
              "serves_properties": [c["property_id"] for c in checks],
              "kind_free_text": "Hypothesis 6.168 property-based / stateful testing and complete enumeration of finite sub-domains, fanned out over (execution mode x shard) child processes; oracles under harness/oracle"},
+            {"name": "atheris-fuzz", "path": "harness/fuzz.py", "serves_properties": ["C01", "C08"],
+             "kind_free_text": "Atheris 3.1 / libFuzzer coverage-guided campaigns over sub-checks that define fuzz_decode (structured decoding of the bytes, semantic oracle inside the target); skipped with a note if atheris is not importable"},
         ],
         "checks": checks,
         "not_applicable": na,
         "notes": ("Run from /verif. ./check <id> quick|thorough honours VERIF_SEED; exit 0 held, 1 violation (VIOLATION line + replay file), "
-                  "2 machinery fault / inconclusive. Known findings: KNOWN_FINDINGS.txt. Design: DESIGN.md."),
+                  "2 machinery fault / inconclusive. Known findings: KNOWN_FINDINGS.txt. Design: DESIGN.md (section 8 = as built). "
+                  "Repository fix commits (all pass the unedited suite): " + ", ".join(FIX_COMMITS) + ". "
+                  "Seeded breaking changes and what catches them: seeded/INDEX.md."),
     }
     with open(os.path.join(HERE, "MANIFEST.json"), "w") as f:
         json.dump(manifest, f, indent=1)
